@@ -669,6 +669,16 @@ impl Stmt {
     }
 }
 
+// Rust prints `1.0` as `1`; in Go an undecorated `1` is an integer constant, so `1 / 2` would
+// be the integer division 0. Keep the literal a floating-point constant.
+fn go_float_literal(value: f64) -> String {
+    let mut text = value.to_string();
+    if value.is_finite() && !text.contains(['.', 'e', 'E']) {
+        text.push_str(".0");
+    }
+    text
+}
+
 impl Expr {
     pub fn to_doc(&self, goenv: &GlobalGoEnv) -> RcDoc<'_, ()> {
         match self {
@@ -678,7 +688,7 @@ impl Expr {
             Expr::Var { name, ty: _ } => RcDoc::text(name),
             Expr::Bool { value, ty: _ } => RcDoc::text(if *value { "true" } else { "false" }),
             Expr::Int { value, ty: _ } => RcDoc::as_string(value),
-            Expr::Float { value, ty: _ } => RcDoc::as_string(value),
+            Expr::Float { value, ty: _ } => RcDoc::text(go_float_literal(*value)),
             Expr::String { value, ty: _ } => RcDoc::text("\"")
                 .append(RcDoc::text(escape_go_string(value)))
                 .append(RcDoc::text("\"")),
